@@ -574,7 +574,8 @@ def run_check(prop, tier, seed, meta, instances, build, level='model_checking', 
         'wall_s': round(wall, 1),
         'violations': len(violations),
     }
-    evdir = os.path.join(VERIF, 'logs' if partial else 'evidence')     # --only (debugging) runs never touch the evidence file
+    # --only (debugging) runs and runs against a deliberately modified /repo (VERIF_SCRATCH_EVIDENCE, used by seedtest.py) never touch the evidence file
+    evdir = os.path.join(VERIF, 'logs' if (partial or os.environ.get('VERIF_SCRATCH_EVIDENCE')) else 'evidence')
     os.makedirs(evdir, exist_ok=True)
     tmp = os.path.join(evdir, prop + '.json.tmp')
     json.dump(ev, open(tmp, 'w'), indent=1)
